@@ -307,3 +307,14 @@ pub fn any_ev(spec: &Rec, sel: fn(&Evt) -> bool) -> bool {
     while i < spec.n as usize && i < CAP { if sel(&spec.ev[i]) { return true; } i += 1; }
     false
 }
+
+/// C04 for hand-overs: the location given to `merge` is the position of what is handed over, so it is at or above the
+/// location of the call made just before it (a report of the child, or the child's own hand-over one level down)
+pub fn handovers_at_or_above_previous(r: &Rec) -> bool {
+    let mut i = 1;
+    while i < r.n as usize && i < CAP {
+        if r.ev[i].kind() == K_HANDOVER && r.ev[i - 1].path().len() <= PATH_MAX as u32 && !r.ev[i].path().is_prefix_of(&r.ev[i - 1].path()) { return false; }
+        i += 1;
+    }
+    true
+}
